@@ -28,7 +28,9 @@ from harness import pdfwriter as W
 LEVEL = "proof"
 RULE = ("export cases: images of kind gray-8 / RGB-8 / 1-bit / DCT with widths covering every row-byte residue mod 4 "
         "(and w=1, h=1), random/gradient/constant samples, unfiltered or through 1-3 lossless filters "
-        "(Flate, LZW, RunLength, ASCII85, ASCIIHex), placed as XObjects or inline images, several per directory incl. "
+        "(Flate, LZW, RunLength, ASCII85, ASCIIHex; Flate/LZW with every /Predictor value 1, 2, 10..15), placed as XObjects, "
+        "inline images (every key/value spelling), inside form XObjects, on pages whose /Contents is one stream or an array "
+        "of 2-4 streams, several per directory incl. "
         "repeated names; inline cases: content streams prefix + BI..ID data EOL EI + suffix with data over arbitrary "
         "bytes biased to E/I/CR/LF/space, three EOL forms, every parser buffer size 1..64 and 4096; a case is "
         "non-trivial when it is a distinct input with >= 1 image whose sample array is not constant")
@@ -131,7 +133,11 @@ def gen_image(rng, idx: int, force_kind: Optional[str] = None, force_w: Optional
             filters = [rng.choice(LOSSLESS), rng.choice(LOSSLESS)]
         else:
             filters = [rng.choice(LOSSLESS) for _ in range(3)]
-    return {"kind": kind, "w": w, "h": h, "data": data.hex(), "filters": filters,
+    predictor = None
+    if filters and filters[-1] in ("Flate", "LZW") and not kind.startswith("jpeg") and rng.random() < 0.45:
+        # /DecodeParms of the last filter: every predictor value, also the rarely written ones (1, 10, 11, 13, 14)
+        predictor = rng.choice([1, 10, 11, 12, 13, 14, 15, 10, 2 if kind != "bit1" else 12])
+    return {"kind": kind, "w": w, "h": h, "data": data.hex(), "filters": filters, "predictor": predictor,
             "name": rng.choice(["Im0", "Im1", "Im%d" % idx, "X", "img.a", "A B"]),
             "place": "inline" if rng.random() < 0.3 else "xobj"}
 
@@ -166,7 +172,7 @@ def make_stream(img: Dict[str, Any], rng=None, raw: Optional[bytes] = None):
                   (bytes.fromhex(x[1:-1]) if isinstance(x, str) else x)) for x in v]
         attrs[k] = v
     if raw is None:
-        raw = IL.encode_chain(bytes.fromhex(img["data"]), img.get("filters", []), rng)
+        raw = IL.encode_image(img, rng)
     return PDFStream(attrs, raw)
 
 
@@ -237,11 +243,11 @@ def build_doc(pages: List[Dict[str, Any]], rng=None) -> Tuple[bytes, bytes]:
     for pg in pages:
         xo: Dict[Any, Any] = {}
         c = b""
-        cp = b""
+        pieces: List[bytes] = []
+        pieces_plain: List[bytes] = []
         for i, img in enumerate(pg["images"]):
             # inline payloads are encoded deterministically: fix_inline() checked exactly these bytes for the marker
-            payload = IL.encode_chain(bytes.fromhex(img["data"]), img.get("filters", []),
-                                      None if img["place"] == "inline" else rng)
+            payload = IL.encode_image(img, None if img["place"] == "inline" else rng)
             pre = b"BT /F1 9 Tf %d %d Td (%s) Tj ET\n" % (20 + 5 * i, 700 - 11 * i, ("p%d" % i).encode())
             if img["place"] == "inline":
                 body = IL.inline_image_bytes(img, payload, id_ws=img.get("id_ws", " ").encode("latin-1"),
@@ -249,6 +255,8 @@ def build_doc(pages: List[Dict[str, Any]], rng=None) -> Tuple[bytes, bytes]:
                                              after=bytes.fromhex(img.get("after", "0a")),
                                              abbreviate=img.get("abbr", True))
                 c += pre + b"q 10 0 0 10 %d 20 cm\n" % (30 * i) + body + b"Q\n"
+                pieces.append(c)
+                c = b""
             else:
                 d = IL.image_dict(img, False)
                 if img.get("cs_array"):
@@ -265,25 +273,44 @@ def build_doc(pages: List[Dict[str, Any]], rng=None) -> Tuple[bytes, bytes]:
                 xo[key] = W.Ref(objn)
                 objn += 1
                 c += pre + b"q 10 0 0 10 %d 20 cm " % (30 * i) + W.ser(key) + b" Do Q\n"
-            cp += pre + b"q 10 0 0 10 %d 20 cm\nQ\n" % (30 * i)
+                pieces.append(c)
+                c = b""
+            pieces_plain.append(pre + b"q 10 0 0 10 %d 20 cm\nQ\n" % (30 * i))
         tail = b"BT /F1 12 Tf 100 100 Td (%s) Tj ET" % pg.get("text", "tail").encode()
-        contents.append(c + tail)
-        contents_plain.append(cp + tail)
+        contents.append((pieces, tail, pg))
+        contents_plain.append((pieces_plain, tail, pg))
         page_res.append(xo)
-    # one Resources dict per page
+
     def mk(cs, with_xo):
         objs: Dict[int, Any] = {1: {"Type": "Catalog", "Pages": W.Ref(2)}, 3: dict(W.HELVETICA)}
         kids = []
         n = 10
-        for k, cbytes in enumerate(cs):
-            objs[n] = W.Stream({}, cbytes)
+        for k, (pcs, tail, pg) in enumerate(cs):
             res: Dict[str, Any] = {"Font": {"F1": W.Ref(3)}}
             if with_xo and page_res[k]:
-                res["XObject"] = page_res[k]
-            objs[n + 1] = {"Type": "Page", "Parent": W.Ref(2), "Contents": W.Ref(n), "Resources": res,
-                           "MediaBox": [0, 0, 612, 792]}
-            kids.append(W.Ref(n + 1))
-            n += 2
+                res["XObject"] = dict(page_res[k])
+            if pg.get("form") and pcs:
+                # the images are painted from inside a form XObject (its own content parser and resources)
+                objs[n] = W.Stream({"Type": "XObject", "Subtype": "Form", "BBox": [0, 0, 612, 792], "Resources": dict(res)},
+                                   b"".join(pcs))
+                res = dict(res)
+                res["XObject"] = dict(res.get("XObject", {}), **{"VerifFm": W.Ref(n)})
+                n += 1
+                pcs = [b"/VerifFm Do\n"]
+            parts = list(pcs) + [tail]
+            # /Contents as one stream or as an array of streams divided at operator boundaries
+            k_streams = max(1, min(int(pg.get("nstreams", 1)), len(parts)))
+            cuts = sorted(set([0] + [round(j * len(parts) / k_streams) for j in range(1, k_streams)]))
+            groups = [b"".join(parts[a:b]) for a, b in zip(cuts, cuts[1:] + [len(parts)])]
+            refs = []
+            for g in groups:
+                objs[n] = W.Stream({}, g if g.endswith(b"\n") or g is groups[-1] else g + b"\n")
+                refs.append(W.Ref(n))
+                n += 1
+            objs[n] = {"Type": "Page", "Parent": W.Ref(2), "Contents": refs[0] if len(refs) == 1 else refs, "Resources": res,
+                       "MediaBox": [0, 0, 612, 792]}
+            kids.append(W.Ref(n))
+            n += 1
         objs[2] = {"Type": "Pages", "Kids": kids, "Count": len(kids)}
         if with_xo:
             objs.update(extra)
@@ -368,7 +395,7 @@ def judge_file(img: Dict[str, Any], name: Optional[str], blob: Optional[bytes], 
 
 
 def export_tags(img: Dict[str, Any]) -> Dict[str, Any]:
-    return {"area": "export", "kind": img["kind"], "unfiltered": not img.get("filters"),
+    return {"area": "export", "kind": img["kind"], "unfiltered": not img.get("filters"), "predictor": img.get("predictor"),
             "indirect": img.get("indirect", []), "cs_array": bool(img.get("cs_array")),
             "rowpad": (not img["kind"].startswith("jpeg")) and IL.row_bytes(img["kind"], img["w"]) % 4 != 0,
             "place": img.get("place", "xobj")}
@@ -591,6 +618,12 @@ def check_pipeline(ctx: C.Ctx, pages: List[Dict[str, Any]], in_domain: bool = Tr
              branch="pipeline:%dpages" % len(pages))
     for img in imgs:
         ctx.branch("pipeline:" + img["place"] + ":" + img["kind"])
+        if img.get("predictor"):
+            ctx.branch("pipeline:predictor=%d" % img["predictor"])
+    for pg in pages:
+        ctx.branch("pipeline:contents-streams=%d" % pg.get("nstreams", 1))
+        if pg.get("form"):
+            ctx.branch("pipeline:images-in-form")
     if not in_domain:
         return
 
@@ -652,7 +685,7 @@ def verdict_from(pages, names, files, text, exc, text_plain):
 def inline_tags_of(imgs):
     for img in imgs:
         if img["place"] == "inline":
-            payload_last = IL.encode_chain(bytes.fromhex(img["data"]), img.get("filters", []), None)[-1:]
+            payload_last = IL.encode_image(img, None)[-1:]
             return {"data_ends_cr": payload_last == b"\r", "sep": img.get("sep", "0a"), "after": img.get("after", "0a"),
                     "abbr": img.get("abbr", True), "filtered": bool(img.get("filters"))}
     return {}
@@ -717,7 +750,8 @@ def gen_pages(rng, idx0: int) -> List[Dict[str, Any]]:
                 if rng.random() < 0.15:
                     img["cs_array"] = True
             imgs.append(img)
-        pages.append({"images": imgs, "text": "t%d" % p})
+        pages.append({"images": imgs, "text": "t%d" % p, "nstreams": rng.choice([1, 1, 2, 3, 4]),
+                      "form": rng.random() < 0.2})
     return pages
 
 
@@ -734,7 +768,7 @@ def fix_inline(rng, img) -> None:
     if img["kind"].startswith("jpeg"):
         img["filters"] = ["A85", "DCT"] if "A85" in img["filters"] else (["AHx", "DCT"] if rng.random() < 0.5 else ["DCT"])
     for _ in range(50):
-        payload = IL.encode_chain(bytes.fromhex(img["data"]), img.get("filters", []), None)
+        payload = IL.encode_image(img, None)
         first = (img.get("filters") or [""])[0]
         a85_marker = first == "A85" and IL.filter_key_short(img)      # do_keyword looks at /F only
         target = b"~>" if a85_marker else b"EI"
@@ -785,11 +819,13 @@ def canon(o) -> str:
     return "?" + type(o).__name__
 
 
-def impl_tokens(content: bytes, bufsiz: int) -> Tuple[List[str], Optional[str]]:
+def impl_tokens(content, bufsiz: int) -> Tuple[List[str], Optional[str]]:
+    """Token stream of one content stream, or of the streams of a /Contents array (list of bytes)."""
     from pdfminer.pdfinterp import PDFContentParser
     from pdfminer.pdftypes import PDFStream
     from pdfminer.psparser import PSEOF
-    p = PDFContentParser([PDFStream({}, content)])
+    streams = content if isinstance(content, list) else [content]
+    p = PDFContentParser([PDFStream({}, c) for c in streams])
     p.BUFSIZ = bufsiz
     toks = []
     for _ in range(100000):
@@ -832,8 +868,8 @@ def gen_inline_data(rng) -> bytes:
         d = bytes(rng.choice(INL_ALPHABET) for _ in range(n))
     else:
         d = bytes(rng.randrange(256) for _ in range(n))
-    if rng.random() < 0.25 and n:
-        d = d[:-1] + rng.choice([b"E", b"\r", b"\n", b"I", b" "])
+    if rng.random() < 0.35 and n:
+        d = d[:-1] + rng.choice([b"E", b"\r", b"\r", b"\n", b"I", b" "])
     return d
 
 
@@ -863,6 +899,11 @@ def gen_inline_case(rng, in_domain: bool) -> Dict[str, Any]:
         case["spell"] = IL.random_spell(rng)
     if rng.random() < 0.3:
         case["extras"] = IL.random_extras(rng)
+    if rng.random() < 0.35:
+        # the image sits in the 2nd / 3rd stream of a /Contents array (streams are divided at token boundaries)
+        case["pre_streams"] = [rng.choice([b"q\n", b"q 1 0 0 1 5 5 cm\n", b"BT /F1 9 Tf (ab) Tj ET\n", b"\n",
+                                           b"% " + b"x" * rng.randint(1, 90) + b"\n0 g\n"]).hex()
+                               for _ in range(rng.choice([1, 1, 2]))]
     return case
 
 
@@ -880,7 +921,18 @@ def inline_dims(rng, n: int, in_domain: bool) -> Dict[str, Any]:
             opts.append(("gray8", n // hh, hh))
     if n % 3 == 0:
         opts.append(("rgb8", n // 3, 1))
-    opts.append(("bit1", 8 * n - rng.randint(0, 7), 1))
+    # rows that do not fill whole bytes (every row is padded to a byte, so the size is NOT ceil(total bits / 8)):
+    # 1-, 2-, 4-bit and 4-bit RGB images with one or several rows
+    for kind in ("bit1", "bit1", "gray2", "gray4", "rgb4", "gray16", "cmyk8"):
+        bpc, nc = IL.KIND_SHAPE[kind]
+        for hh in (1, 2, 3, 4, 5, 7):
+            if n % hh:
+                continue
+            rb = n // hh                      # bytes per row
+            wmax = rb * 8 // (bpc * nc)
+            wmin = ((rb - 1) * 8) // (bpc * nc) + 1
+            if wmax >= wmin and wmax >= 1:
+                opts.append((kind, rng.randint(max(1, wmin), wmax), hh))
     k, w, h = rng.choice(opts)
     return {"kind": k, "w": w, "h": h, "flt": None}
 
@@ -923,8 +975,12 @@ def inline_verdict(case) -> Optional[Tuple[str, Any, Any, Dict[str, Any]]]:
     content, start, head = inline_content(case)
     bufsiz = case["bufsiz"]
     data = bytes.fromhex(case["data"])
-    toks, exc = impl_tokens(content, bufsiz)
-    pre, _ = impl_tokens(bytes.fromhex(case["prefix"]), bufsiz)
+    earlier = [bytes.fromhex(x) for x in case.get("pre_streams", [])]       # earlier streams of a /Contents array
+    toks, exc = impl_tokens(earlier + [content] if earlier else content, bufsiz)
+    pre = []
+    for e in earlier:
+        pre += impl_tokens(e, bufsiz)[0]
+    pre += impl_tokens(bytes.fromhex(case["prefix"]), bufsiz)[0]
     suf, _ = impl_tokens(bytes.fromhex(case["suffix"]), bufsiz)
     d = inline_dict_of(case)
     imgtok = "img{" + ",".join(k + "=" + ("n:" + v if isinstance(v, str) else ("b:%d" % v if isinstance(v, bool) else "i:%d" % v))
@@ -932,7 +988,7 @@ def inline_verdict(case) -> Optional[Tuple[str, Any, Any, Dict[str, Any]]]:
              "}:" + C.hx(data)
     exp = pre + [imgtok, "k:EI"] + suf
     tags = {"area": "inline", "data_ends_cr": data.endswith(b"\r"), "sep": case["sep"], "after": case["after"],
-            "filtered": bool(case.get("flt")),
+            "filtered": bool(case.get("flt")), "streams": 1 + len(earlier),
             "data_ends_E": data.endswith(b"E"), "eof_after_EI": case["after"] == "" and case["suffix"] == "",
             "bufsiz": bufsiz}
     if exc is not None:
@@ -952,6 +1008,11 @@ def shrink_inline(case, what):
     def fails(c):
         v = inline_verdict(c)
         return v is not None and v[0] == what
+    if cur.get("pre_streams"):
+        t = dict(cur)
+        t.pop("pre_streams")
+        if fails(t):
+            cur = t
     for key in ("prefix", "suffix"):
         t = dict(cur)
         t[key] = ""
@@ -993,6 +1054,7 @@ def check_inline_case(ctx: C.Ctx, case, in_domain: bool, lines, impl, inputs) ->
     ctx.branch("inline:sep=" + (case["sep"] or "none"))
     ctx.branch("inline:after=" + (case["after"] or "eof"))
     ctx.branch("inline:buf=" + ("small" if case["bufsiz"] < 4096 else "4096"))
+    ctx.branch("inline:streams=%d" % (1 + len(case.get("pre_streams", []))))
     if data.endswith(b"\r"):
         ctx.branch("inline:data-ends-CR")
     if data.endswith(b"E"):
